@@ -843,7 +843,7 @@ def world_tour(tier, seed, features=()):
         consts = dict(MaxCap=6, MaxSlotVer=3, MaxArchVer=4, InitCaps="{0, 2}", MaxOps=5 if events else 6, MaxLen=3)
         caps, archs = [0, 2], [1]
     else:
-        consts = dict(MaxCap=6, MaxSlotVer=3, MaxArchVer=4, InitCaps="{0, 1, 2}", MaxOps=7 if events else 8, MaxLen=3)
+        consts = dict(MaxCap=6, MaxSlotVer=3, MaxArchVer=4, InitCaps="{0, 1, 2}", MaxOps=6 if events else 7, MaxLen=3)
         caps, archs = [0, 1, 2], [0, 1, 2, 3]
     # with the events feature the model carries the created / destroyed logs and clear_events
     consts["Events"] = "TRUE" if events else "FALSE"
